@@ -27,6 +27,46 @@ def gen_shape(rng, dom_sizes=(1, 2, 3, 2, 0)):
     return shape
 
 
+def bcast_shape(rng):
+    """the broadcast family: nonterminals whose value is constant along some dimensions (an external node attached to no edge, so the
+    value is a stride-0 expansion) used with PERMUTED attachments in rules that have no internal node and a left-hand side of arity 2..4:
+    a sum-free einsum whose broadcast output dimensions the no-grad path removes and must put back at the right positions"""
+    nls = [rng.choice([2, 3, 2])] * 1 if rng.random() < 0.7 else [2, 3]
+    terms = [[], [rng.randrange(len(nls))]]
+    ar = rng.choice([2, 3, 3, 4])
+    sty = [rng.randrange(len(nls)) for _ in range(ar)]
+    nts = [sty]
+    rules = []
+    edges = []
+    covered = set()
+    for _ in range(rng.choice([1, 1, 2])):
+        m = rng.choice([2, 2, 3])
+        att = rng.sample(range(ar), min(m, ar))
+        yty = [sty[v] for v in att]
+        nts.append(yty)
+        yi = len(nts) - 1
+        edges.append(['n', yi, att])
+        covered |= set(att)
+        # Y -> c()  with all / all but one external node attached to nothing
+        yedges = [['t', 0, []]]
+        if rng.random() < 0.4:
+            j = rng.randrange(len(yty))
+            cand = [i for i, ty in enumerate(terms) if ty == [yty[j]]]
+            if cand:
+                yedges.append(['t', cand[0], [j]])
+        rules.append(dict(lhs=yi, nodes=list(yty), ext=list(range(len(yty))), edges=yedges))
+    for v in range(ar):
+        cand = [i for i, ty in enumerate(terms) if ty == [sty[v]]]
+        if cand and (v not in covered or rng.random() < 0.3):
+            edges.append(['t', cand[0], [v]])
+    rng.shuffle(edges)
+    rules.insert(0, dict(lhs=0, nodes=list(sty), ext=list(range(ar)), edges=edges))
+    shape = dict(nls=nls, terms=terms, nts=nts, start=0, rules=rules)
+    shape['weights'] = {i: [rng.choice([1.0, 2.0, 3.0, 0.5]) for _ in range(math.prod(nls[l] for l in ty))] for i, ty in enumerate(terms)}
+    shape['vweights'] = {i: [rng.choice([0.0, -1.0, -2.0, 1.0]) for _ in w] for i, w in shape['weights'].items()}
+    return shape
+
+
 def run_case(ctx, shape, dtypes, reqs, meta, preqs):
     case = dict(shape={k: v for k, v in shape.items() if k != 'vweights'}, vweights=shape['vweights'])
     nontriv = len(shape['rules']) >= 2 and any(r['edges'] for r in shape['rules'])
@@ -101,6 +141,9 @@ def run(ctx):
     n = 60 if ctx.quick else 1200
     for k in range(n):
         run_case(ctx, gen_shape(ctx.rng), dtypes, reqs, meta, preqs)
+    for k in range(12 if ctx.quick else 240):
+        ctx.count('broadcast-family')
+        run_case(ctx, bcast_shape(ctx.rng), dtypes, reqs, meta, preqs)
     pipeline(ctx, preqs)
     # de-duplicate identical requests (same grammar/semiring model) to save driver time
     uniq = {}
